@@ -62,8 +62,8 @@ fn guarded(run: &Run, f: impl FnOnce()) {
 /// non-termination becomes a verdict: report the case that has been running too long and exit 1
 fn start_watchdog(id: &'static str) {
     crate::watch::start(move |what| {
-        let path = format!("{}/replays/{}-hang.json", crate::report::VERIF_DIR, id);
-        let _ = std::fs::create_dir_all(format!("{}/replays", crate::report::VERIF_DIR));
+        let path = format!("{}/replays/{}-hang.json", crate::report::out_dir(), id);
+        let _ = std::fs::create_dir_all(format!("{}/replays", crate::report::out_dir()));
         let _ = std::fs::write(&path, serde_json::json!({"property": id, "summary": "case did not terminate within the watchdog limit", "case": {"op": "hang", "input": what}}).to_string());
         println!("VIOLATION property={} replay={}", id, path);
         println!("  a single case has consumed more than {} s of CPU time on its thread (or been blocked for more than {} s) without finishing: {:?}", crate::watch::LIMIT_S, crate::watch::WALL_LIMIT_S, what);
@@ -100,7 +100,7 @@ pub fn replay_case(id: &str, op: &str, case: &serde_json::Value) -> Result<(), S
     if op == "crash" {
         // run the probe in a subprocess: the case is expected to kill it
         let exe = std::env::current_exe().map_err(|e| e.to_string())?;
-        let probe = format!("/verif/target/probe-replay-{id}.json");
+        let probe = format!("{}/target/probe-replay-{id}.json", crate::report::out_dir());
         std::fs::write(&probe, serde_json::json!({"tag": case["tag"], "what": case["what"]}).to_string()).map_err(|e| e.to_string())?;
         let st = std::process::Command::new(exe).args([id, "--probe", probe.as_str()]).env("NVCHECK_CHILD", "1").status().map_err(|e| e.to_string())?;
         return if st.code() == Some(0) { Ok(()) } else { Err(format!("the probe process dies: {st}")) };
